@@ -2,6 +2,18 @@
 """Regenerates MANIFEST.json from the table below (kept in one place so that it stays valid)."""
 import json, sys
 CHECKS = {
+ "C02": dict(
+   text="Signature-decoding strictness decided by SMT on the real ML-DSA/Dilithium unpackedSignature.Unpack of all six parameter sets: symbolic challenge bytes and appended bytes around a concrete valid body; accepted iff the length is exactly SignatureSize; truncations refused. (Hint-decoding canonicity is decided under C04.)",
+   note="Covers the length/shape clause for the six ML-DSA/Dilithium packages so far; algebraic validity of honest signatures is outside the technique.",
+   ref="§4 C02"),
+ "C04": dict(
+   text="Hint decoding of all six ML-DSA/Dilithium parameter sets equals FIPS 204 Algorithm 21 (HintBitUnpack) on every (omega+k)-byte string within the stated hint-count bound: same verdict and same vector; decided by bounded symbolic execution with case split on switch-over points.",
+   note="Bound: switch-over points <= 1 (quick) / <= 2 (thorough); rounding/packing kernels being added.",
+   ref="§4 C04"),
+ "C07": dict(
+   text="RFC 9180 §5.1 VerifyPSKInputs: the real verifyPSKInputs decided for all four modes (symbolic mode byte) and all presence combinations of psk / psk_id.",
+   note="Only the PSK-input rule so far; key-schedule transcripts need the hash model (planned).",
+   ref="§4 C07"),
  "C03": dict(
    text="Bounded symbolic model checking of the real Kyber/ML-KEM arithmetic and codec code: barrettReduce/csubq/montReduce/toMont over their entire (documented) domains, CompressTo/Decompress for d in {1,4,5,10,11} and Pack/Unpack on whole symbolic polynomials against FIPS 203 Compress_d/Decompress_d/ByteEncode_d written with exact division and bit-by-bit packing.",
    note="Decides the kernels and codecs only (not end-to-end bytes for all seeds, which needs SHAKE over symbolic data); generic (purego) code paths; AVX2 back-ends outside; go/ssa and executor semantics trusted.",
